@@ -183,7 +183,7 @@ def main():
             for m in re.finditer(r"THEOREM (\S+) AXIOMS ?(.*)", out):
                 name = m.group(1)
                 last = name.split(".")[-1]
-                if re.match(r"(eq_\d+|eq_def|match_\d+|proof_\d+|congr_simp|sizeOf_spec|injEq|inj|noConfusion.*|ofNat_ctorIdx|ctorIdx.*|brecOn.*|below.*|rec.*|casesOn.*)$", last):
+                if re.match(r"(eq_\d+|eq_def|match_\d+|proof_\d+|congr_simp|sizeOf_spec|injEq|inj|noConfusion.*|ofNat_ctorIdx|ctorIdx.*|brecOn.*|below(_\d+)?|rec(On)?(_\d+)?|casesOn.*)$", last):
                     continue
                 axs = [a.strip() for a in m.group(2).split(",") if a.strip()]
                 theorems.append((name, axs))
